@@ -8,6 +8,7 @@ from .. import credit as CR
 from .. import idioms as ID
 from .. import symx as SX
 from ..model import calls_in, get_arg, is_self_attr, method_name, strip_doc
+from .. import shapes as SH
 from ..report import AnalysisError, Ctx, norm_src
 
 SENT = ("-np.inf", "-math.inf", "float('-inf')")
@@ -100,7 +101,7 @@ def check_mean(ctx):
            "Zooming.receive_reward", "arm mean is the running mean over its own pull count", "count expression %s" % cnt, fn.lineno)
     g = C.CFG(fn)
     upd = [n for n in g.nodes if n.kind == "stmt" and isinstance(n.ast, ast.Assign) and norm_src(n.ast.targets[0]) == "self.average_rewards[self.best_arm]"]
-    inc = [n for n in g.nodes if n.kind == "stmt" and norm_src(n.ast) == "self.pulled_times[self.best_arm] += 1"]
+    inc = [n for n in g.nodes if n.kind == "stmt" and SH.is_increment(n.ast, "self.pulled_times[self.best_arm]")]
     ok = len(upd) == 1 and len(inc) == 1 and g.dominates(upd[0], inc[0]) and g.dominates(inc[0], g.exit) and not g.guards(inc[0])
     ctx.ob("R11-MEAN", ok, c.file, "Zooming.receive_reward", "pull count incremented exactly once, after the mean update, unconditionally",
            "%d mean update(s), %d increment(s)" % (len(upd), len(inc)), fn.lineno)
@@ -153,12 +154,12 @@ def check_refine(ctx):
                 why = str(ex)
         ctx.ob("R11-REFINE", ok, c.file, q, "refinement test", why, call.lineno)
         # evaluated after the pull count was incremented
-        inc = [n for n in g.nodes if n.kind == "stmt" and norm_src(n.ast) == "self.pulled_times[self.best_arm] += 1"]
+        inc = [n for n in g.nodes if n.kind == "stmt" and SH.is_increment(n.ast, "self.pulled_times[self.best_arm]")]
         if inc and cmp_facts:
             ctx.ob("R11-REFINE", g.dominates(inc[0], cmp_facts[0][1]), c.file, q, "radius uses the updated pull count", "increment precedes the test",
                    call.lineno, nontrivial=False)
     # phase clock: time += 1 once; phase grows when time reaches next_end_time
-    tinc = [n for n in g.nodes if n.kind == "stmt" and norm_src(n.ast) == "self.time += 1"]
+    tinc = [n for n in g.nodes if n.kind == "stmt" and SH.is_increment(n.ast, "self.time")]
     okc = len(tinc) == 1 and not g.guards(tinc[0]) and g.dominates(tinc[0], g.exit)
     ctx.ob("R11-REFINE", okc, c.file, q, "phase clock advances once per reward", "%d increment(s)" % len(tinc), fn.lineno)
     for m, f2 in model.cls("Zooming").methods.items():
@@ -229,7 +230,8 @@ def check_cover(ctx):
            "initialised False before the loop, set True only on hand-over" if okf else "flag assignments: %s" % [norm_src(s) for s in assigns], L.lineno)
     # containment test: all coordinates within the child's closed box
     pre = L.body[:-1]
-    okc, whyc = containment_ok(pre, cont, child)
+    outer = [x for x in ast.walk(fn) if isinstance(x, ast.Assign) and not any(x is y for y in ast.walk(L))]
+    okc, whyc = containment_ok(pre, cont, child, outer)
     ctx.ob("R11-COVER", okc, c.file, q, "'%s' means: every coordinate of the arm lies in the child's box" % cont, whyc, L.lineno)
     # nothing else in the loop touches the maps
     other = [x for s in pre for x in ast.walk(s) if isinstance(x, ast.Call) and method_name(x) == "make_active" or
@@ -237,18 +239,68 @@ def check_cover(ctx):
     ctx.ob("R11-COVER", not other, c.file, q, "no other hand-over or activation in the loop", "%s" % [norm_src(x) for x in other], L.lineno, nontrivial=False)
 
 
-def containment_ok(pre, cont, child):
+def containment_ok(pre, cont, child, outer_assigns=None):
     """pre-statements compute `cont` := for every dim, box[dim][0] <= point[dim] <= box[dim][1]."""
     names = {}
-    for s in pre:
+    for s in list(outer_assigns or []) + list(pre):
         if isinstance(s, ast.Assign) and isinstance(s.targets[0], ast.Name):
             names[s.targets[0].id] = s
-    box = [n for n, s in names.items() if norm_src(s.value) in ("%s.get_domain()" % child, "%s.domain" % child)]
-    pt = [n for n, s in names.items() if norm_src(s.value) in ("self.best_arm.get_point()", "self.best_arm.p")]
+    BOX = ("%s.get_domain()" % child, "%s.domain" % child)
+    PT = ("self.best_arm.get_point()", "self.best_arm.p")
+    box = [n for n, s in names.items() if norm_src(s.value) in BOX] or [b for b in BOX if any(b in norm_src(x) for x in pre)]
+    pt = [n for n, s in names.items() if norm_src(s.value) in PT] or [b for b in PT if any(b in norm_src(x) for x in pre)]
     if len(box) != 1 or len(pt) != 1:
         return False, "child box / arm point are not read as expected (%s, %s)" % (box, pt)
     box, pt = box[0], pt[0]
     init = names.get(cont)
+    if init is not None and isinstance(init.value, ast.Call) and norm_src(init.value.func) == "all" and len(init.value.args) == 1 and \
+            isinstance(init.value.args[0], (ast.GeneratorExp, ast.ListComp)) and len(init.value.args[0].generators) == 1:
+        ge = init.value.args[0]
+        gen = ge.generators[0]
+        if gen.ifs:
+            return False, "all(...) with a filter"
+        it, tg, elt = norm_src(gen.iter), gen.target, ge.elt
+        # forms: all(box[d][0] <= pt[d] <= box[d][1] for d in range(len(box)))  /  for p, (lo, hi) in zip(pt, box)  /  for (lo, hi), p in zip(box, pt)
+        conj = set()
+        parts = elt.values if isinstance(elt, ast.BoolOp) and isinstance(elt.op, ast.And) else [elt]
+        expanded = []
+        for part in parts:
+            if isinstance(part, ast.UnaryOp) and isinstance(part.op, ast.Not) and isinstance(part.operand, ast.BoolOp) and \
+                    isinstance(part.operand.op, ast.Or) and all(isinstance(v, ast.Compare) and len(v.ops) == 1 for v in part.operand.values):
+                for v in part.operand.values:      # not (a < b or c > d)  ==  a >= b and c <= d
+                    neg = {ast.Lt: ast.GtE, ast.Gt: ast.LtE, ast.LtE: ast.Gt, ast.GtE: ast.Lt}.get(type(v.ops[0]))
+                    if neg is None:
+                        return False, "unexpected comparison in the containment test"
+                    expanded.append(ast.Compare(left=v.left, ops=[neg()], comparators=v.comparators))
+            else:
+                expanded.append(part)
+        for part in expanded:
+            if isinstance(part, ast.Compare):
+                left = part.left
+                for op, c in zip(part.ops, part.comparators):
+                    o = {ast.LtE: "<=", ast.GtE: ">="}.get(type(op))
+                    if o is None:
+                        return False, "containment uses a strict or unexpected comparison (%s)" % norm_src(part)
+                    a, b = norm_src(left), norm_src(c)
+                    conj.add((a, b) if o == "<=" else (b, a))
+                    left = c
+            else:
+                return False, "containment element is not a comparison"
+        if it == "range(len(%s))" % box and isinstance(tg, ast.Name):
+            d = tg.id
+            want = {("%s[%s][0]" % (box, d), "%s[%s]" % (pt, d)), ("%s[%s]" % (pt, d), "%s[%s][1]" % (box, d))}
+        elif it in ("zip(%s, %s)" % (pt, box), "zip(%s, %s)" % (box, pt)) and isinstance(tg, ast.Tuple) and len(tg.elts) == 2:
+            a, b = tg.elts if it.startswith("zip(%s" % pt) else (tg.elts[1], tg.elts[0])
+            if isinstance(b, ast.Tuple) and len(b.elts) == 2:
+                lo, hi = norm_src(b.elts[0]), norm_src(b.elts[1])
+            else:
+                lo, hi = "%s[0]" % norm_src(b), "%s[1]" % norm_src(b)
+            want = {(lo, norm_src(a)), (norm_src(a), hi)}
+        else:
+            return False, "all(...) does not range over every dimension of the child's box (%s)" % it
+        if conj != want:
+            return False, "containment test is %s, expected %s" % (sorted(conj), sorted(want))
+        return True, "closed containment in every dimension (all(lo <= p <= hi))"
     loops = [s for s in pre if isinstance(s, ast.For)]
     if init is not None and norm_src(init.value) == "True" and len(loops) == 1:
         Lp = loops[0]
